@@ -45,6 +45,10 @@ DISALLOWED = [
     (r"^core::str::<impl str>::(split_whitespace|trim|trim_start|trim_end|split_ascii_whitespace)$", "Unicode / ASCII white space; XPath has #x20 #x9 #xD #xA"),
     (r"^core::f64::<impl f64>::(trunc|round_ties_even)$|^std::f64::<impl f64>::(trunc|round_ties_even)$", "not an XPath rounding"),
     (r"^std::str::<impl str>::(to_lowercase|to_uppercase)$", "no case mapping in XPath 1.0"),
+    (r"^core::str::<impl str>::(find|rfind|char_indices|match_indices|rmatch_indices|bytes|as_bytes|is_char_boundary)$",
+     "byte offsets / bytes; XPath positions count characters"),
+    (r"^(core|std)::f64::<impl f64>::(total_cmp|to_bits|max|min|clamp|signum|copysign)$",
+     "not the IEEE 754 comparison XPath prescribes (NaN is unequal to everything, the two zeros are equal)"),
 ]
 
 # functions of xml_xpath::eval in which a listed call is legitimate, with the reason
